@@ -223,6 +223,16 @@ def families(tier, seed):
     return fams
 
 
+def _twin_triangle_area():
+    import sys as _sys
+    pg = _sys.modules['Geometry3D.geometry.polygon']
+    orig = pg.get_triangle_area
+    pg.get_triangle_area = lambda a, b, c: orig(a, b, c) * 1.000001
+
+
+TWINS = {'triangle area off by 1e-6 relative': (r'^polygon/quad@axis/order0123$', _twin_triangle_area)}
+
+
 META = dict(
     title='length, area and volume are the exact measures',
     level_text=('Bounded symbolic model checking of the real measure code: Segment.length / Point.distance with an endpoint on a 2-parameter slice, Pyramid '
